@@ -79,18 +79,32 @@ TrWorldServer ==
                     (IF hout'.kind = "ok" THEN {"WorldServer.accept"} ELSE {"WorldServer.reject"}),
                     e.res.kind # hout'.kind)
 
+\* a long call on a vanilla / tbc half is checked with the per-position relation (linear in the length)
+LongCall(hf, data) == hf.exp # "wrath" /\ Len(data) > 1024
 TrCall ==
     /\ IsEv("Call")
     /\ LET e == E
            hf == half[e.h]
            p == PC(hf.exp) IN
        IF ImplPanic(e) THEN UNCHANGED tvars /\ DoneK(<< <<"C14.total", FALSE>> >>, {"Call"}, TRUE)
+       ELSE IF LongCall(hf, e.data)
+       THEN LET okLen == Len(e.res.out) = Len(e.data)
+                cph == IF hf.dir = "enc" THEN e.res.out ELSE e.data IN
+            /\ half' = [half EXCEPT ![e.h].st = After(hf.key, hf.st, cph)]
+            /\ hout' = [kind |-> "ok"]
+            /\ Done(<< << p \o ".bytes", okLen /\ (IF hf.dir = "enc" THEN EncRel(hf.key, hf.st, e.data, e.res.out)
+                                                   ELSE DecRel(hf.key, hf.st, e.data, e.res.out))>>,
+                       << p \o ".state", StOK(half'[e.h], e.st)>>,
+                       <<"C12.indep", HasF(e, "ref") => e.res.out = e.ref>> >>,
+                    {"Call", "Call." \o hf.exp \o "." \o hf.dir, "Call.via." \o e.via, "Call.longerThanKey", "Call.over1024"}
+                    \cup (IF Len(e.data) > 65536 THEN {"Call.over65536"} ELSE {}))
        ELSE /\ Call(e.h, e.data)
             /\ Done(<< << p \o ".bytes", e.res.out = hout'.out>>,
                        << p \o ".state", StOK(half'[e.h], e.st)>>,
                        <<"C12.indep", HasF(e, "ref") => e.res.out = e.ref>> >>,
                     {"Call", "Call." \o hf.exp \o "." \o hf.dir, "Call.via." \o e.via}
                     \cup (IF Len(e.data) = 0 THEN {"Call.empty"} ELSE {})
+                    \cup (IF Len(e.data) > 65536 THEN {"Call.over65536"} ELSE {})
                     \cup (IF Len(e.data) > Len(hf.key) /\ hf.exp # "wrath" THEN {"Call.longerThanKey"} ELSE {}))
 
 \* raw reference recorded from the real code on a clone of the same state
@@ -131,6 +145,10 @@ TrDecHdr ==
                        << p \o ".bytes", e.res.header = hout'.header>>,
                        << p \o ".state", StOK(half'[e.h], e.st)>> >>,
                     {"DecHdr", "DecHdr." \o hf.exp \o "." \o e.kind, "via." \o e.via})
+
+RECURSIVE ScriptBytes(_)
+ScriptBytes(sc) == IF Len(sc) = 0 THEN 0
+                   ELSE (IF Head(sc).t = "data" THEN Len(Head(sc).b) ELSE 0) + ScriptBytes(Tail(sc))
 
 SentSrv(e, hdr) == HasF(e.sent, "size") => (hdr.size = e.sent.size /\ U32LEsmall(hdr.opcode) = e.sent.opcode)
 
@@ -176,7 +194,8 @@ TrReadHdr ==
                        <<"C11.roundtrip", (e.res.kind = "ok" /\ hout'.kind = "ok") => SentOK(e, e.res.header)>>,
                        <<"C10.roundtrip", (wrathSrv /\ e.res.kind = "ok" /\ hout'.kind = "ok") => SentSrv(e, e.res.header)>>,
                        <<"C10.readResult", wrathSrv => e.res.kind = hout'.kind>>,
-                       <<"C10.consumedExactly", (wrathSrv /\ hout'.kind = "ok") => e.unread = 0>>,
+                       <<"C10.consumedExactly", (wrathSrv /\ hout'.kind = "ok") =>
+                            e.unread = ScriptBytes(e.script) - (IF hout'.header.size > 32767 THEN 5 ELSE 4)>>,
                        << p \o ".bytes", (e.res.kind = "ok" /\ hout'.kind = "ok") => e.res.header = hout'.header>>,
                        << p \o ".state", StOK(half'[e.h], e.st)>> >>,
                     {"ReadHdr", "ReadHdr." \o hf.exp \o "." \o e.kind, "via." \o e.via}
